@@ -1,4 +1,4 @@
 #!/bin/bash
 # usage: dumpq.sh <pkg> <func> <obligation-substring> <outfile>
-/verif/bin/govc vc "$1" "$2" -dump "$3" 2>&1 | awk -v pat="$3" 'BEGIN{p=0} /^(FAIL|ok  ) /{ if (index($0,pat)>0 && p==0) {p=1; next} } /^---- solver output/{ if(p==1){p=2} } p==1{print}' > "$4"
+${GOVC:-/verif/bin/govc} vc "$1" "$2" -dump "$3" 2>&1 | awk -v pat="$3" 'BEGIN{p=0} /^(FAIL|ok  ) /{ if (index($0,pat)>0 && p==0) {p=1; next} } /^---- solver output/{ if(p==1){p=2} } p==1{print}' > "$4"
 wc -c "$4"
